@@ -11,7 +11,8 @@ Quirks kept as in the source:
 * in WAIT_FOR_ACK the `new_token` test comes after the `ack` test, so if both are high in one cycle
   the toggle flips, `status_read_complete` pulses and the FSM still goes to RETRANSMIT;
 * `packet_requested` is ignored in TRANSMIT_RESPONSE and WAIT_FOR_ACK, `ack` everywhere except
-  WAIT_FOR_ACK;
+  WAIT_FOR_ACK; (repaired code) an `ack` counts only while the tokenizer still shows an IN token for
+  this endpoint (`handshakes_in.ack & targeting_endpoint`);
 * with `signal_domain != "usb"` the source creates a 1-bit synchroniser whose output is never used
   (the latch still samples `self.signal` directly), so the behaviour is the same.
 
@@ -64,6 +65,13 @@ def nbytes (c : Config) : Nat := (c.width + 7) / 8
 def packetRequested (c : Config) (i : In) : Bool :=
   i.endpoint == c.epNum && i.isIn && i.rfr
 
+/-- `targeting_endpoint`: the most recent token is an IN for this endpoint. -/
+def targeting (c : Config) (i : In) : Bool := i.endpoint == c.epNum && i.isIn
+
+/-- The ACK test of WAIT_FOR_ACK (repaired code): host handshakes are broadcast, only an ACK that
+follows an IN token for this endpoint counts. -/
+def ackTaken (c : Config) (i : In) : Bool := i.ack && targeting c i
+
 /-- `signal_bytes[index]` -/
 def byteAt (v idx : Nat) : Nat := v / 2 ^ (8 * idx) % 256
 
@@ -86,8 +94,8 @@ def step (c : Config) (s : State) (i : In) : State × Out :=
       ({ s with sent := s.sent + 1, fsm := if isLast then .waitAck else .transmit }, o)
     else (s, o)
   | .waitAck =>
-    let o : Out := ⟨false, false, false, payload, s.toggle, i.ack⟩
-    let s1 := if i.ack then { s with toggle := !s.toggle, fsm := .idle } else s
+    let o : Out := ⟨false, false, false, payload, s.toggle, ackTaken c i⟩
+    let s1 := if ackTaken c i then { s with toggle := !s.toggle, fsm := .idle } else s
     let s2 := if i.newToken then { s1 with fsm := .retransmit } else s1
     (s2, o)
   | .retransmit =>
